@@ -12,11 +12,11 @@ REPO = os.environ.get('PGMV_REPO', '/repo')
 BUILD = os.environ.get('PGMV_BUILD', os.path.join(VERIF, 'build'))
 
 # property -> evidence level (default 'proof')
-LEVELS = {'C12': 'other', 'C15': 'other'}
+LEVELS = {'C12': 'other'}
 EXPLAIN = {
     'C08': 'CompressedPGMIndex::search and the CompressedLevel accessors are under contract (obligations/discharged below; indexes of at most 8 levels). The constructor and merge_slopes are decided only by the bounded native link on the real class; bounded results are never counted as proved.',
     'C12': 'Deductive core: serialize_and_map under contract and a harness proof of the write/reopen round trip of the header (obligations/discharged below). The equivalence of the two creating constructors and byte-identity of the files are decided only by the bounded native link on the real class (files compared byte by byte); bounded results are never counted as proved.',
-    'C15': 'Deductive core: capacity helpers (ceil_log2, max_size) and the constructor under contract. The invariants after every update are decided only by the bounded native link through the guarded friend accessor.',
+    'C15': 'insert, pairwise_merge, merge, the capacity helpers and the constructor are under contract (obligations/discharged below). The invariants along histories are decided only by the bounded native link through the guarded friend accessor; bounded results are never counted as proved.',
 }
 
 # bounded native links: dict(name, props, src, flags, args{tier: [..]}, bound, rule, assumptions)
